@@ -11,12 +11,13 @@ NaN = float("nan")
 
 META = {
     "level": "exploration",
-    "rule": ("1-3 dimensions, at least one with 2 or 3 axes, pairwise different extra extents 1-6 (a transposed axis "
-             "then changes the shape or a block), several multi-axis dimensions at once; ccube with the 4 shared "
+    "rule": ("1-3 dimensions, at least one with 2 or 3 axes; in two thirds of the cases pairwise different extra extents "
+             "1-6 (a transposed axis then changes the shape or a block), in one third unconstrained extents 1-4 (so that "
+             "dimensions with equal extra-axis shapes occur); several multi-axis dimensions at once; ccube with the 4 shared "
              "aggregates, xcube with those and stddev/quantile/min/max/corrcoef/covariance; NaN report format. "
              "Non-trivial: >=2 extra-axis positions in total and pairwise different extra extents; distinct by content hash"),
     "require": {t: ["class:axes=3", "class:multi_dims>=2", "cube:ccube", "cube:xcube", "agg:covariance", "agg:count",
-                    "agg:quantile", "blocks_compared", "sliced_variant_compared"] for t in ("quick", "thorough")},
+                    "agg:quantile", "blocks_compared", "sliced_variant_compared", "class:dims_with_equal_extra_shape"] for t in ("quick", "thorough")},
     "assumptions": ["blocks are compared with the 1-D cube of the same library (the property relates the two); "
                     "values within 1e-9 of the data magnitude, missing cells exactly"],
 }
@@ -24,14 +25,14 @@ META = {
 
 def shards(tier):
     if tier == "quick":
-        return [{"label": "cubes%d" % i, "n": 40} for i in range(12)]
-    return [{"label": "cubes%d" % i, "n": 2000} for i in range(16)]
+        return [{"label": "cubes%d" % i, "n": 110} for i in range(14)]
+    return [{"label": "cubes%d" % i, "n": 8000} for i in range(16)]
 
 
 def cases(ctx):
     rng = ctx.rng
     for i in range(ctx.shard["n"]):
-        c = gen.cube_case(rng, min_dims=1, max_dims=3, max_axes=3, multi_axis_prob=0.6, distinct_extras=True,
+        c = gen.cube_case(rng, min_dims=1, max_dims=3, max_axes=3, multi_axis_prob=0.6, distinct_extras=bool(i % 3),
                           force_multi=True, max_extent=4, n=gen.pick(rng, [1, 2, 3, 6, 12, 30]),
                           allow_outside_common=False, explicit_shape=True)
         c["n"] = c["dense"][0].shape[0]
@@ -67,6 +68,9 @@ def judge(ctx, case):
         ctx.count("class:axes=%d" % d.ndim)
     nmulti = sum(1 for d in dense if d.ndim > 1)
     ctx.count("class:multi_dims>=2" if nmulti >= 2 else "class:multi_dims=1")
+    ex = [d.shape[1:] for d in dense if d.ndim > 1]
+    if len(set(ex)) < len(ex):
+        ctx.count("class:dims_with_equal_extra_shape")
     ctx.count("agg:" + agg)
     rma = aggr.nat_for(case)
     distinct_ext = len(set(sshape)) == len(sshape)
